@@ -351,6 +351,12 @@ func c05(c *core.Ctx) {
 		c.EndRule()
 	}
 
+	// ---------------------------------------------------------------- R8
+	if c.Rule("R8", "a WaitGroup a stream operation waits on is released exactly once: Add(1) once in the constructor, every caller of the constructor starts the releasing goroutine on all paths, and that goroutine calls Done exactly once on every path to its return", 1) {
+		c05WaitGroups(c, p, fns)
+		c.EndRule()
+	}
+
 	// ---------------------------------------------------------------- R7
 	if c.Rule("R7", "completion unblocks the peer: the server-done CancelFunc is called before the final blocking frame writes; the HTTP request pipe reader is closed on every path of the completion defer", 2) {
 		// (a) functions that write frames and call a CancelFunc field of their receiver
@@ -831,16 +837,58 @@ func sendSites(fns []*ssa.Function) []sendSite {
 	return out
 }
 
+// chanOrigins resolves a channel value to its origins, following the results
+// of statically resolved helper calls (a getter that hands out the stream's
+// channel field does not hide the field from the send-after-close rule).
+func chanOrigins(v ssa.Value, depth int) []ssa.Value {
+	var out []ssa.Value
+	for _, o := range core.Origins(v) {
+		idx := 0
+		call, isCall := o.(*ssa.Call)
+		if ex, ok := o.(*ssa.Extract); ok {
+			if c2, ok2 := ex.Tuple.(*ssa.Call); ok2 {
+				call, isCall, idx = c2, true, ex.Index
+			}
+		}
+		if !isCall || depth >= 3 {
+			out = append(out, o)
+			continue
+		}
+		callee := core.InfoOf(&call.Call).Static
+		if callee == nil || callee.Blocks == nil {
+			out = append(out, o)
+			continue
+		}
+		for _, r := range core.Returns(callee) {
+			if idx < len(r.Results) {
+				out = append(out, chanOrigins(r.Results[idx], depth+1)...)
+			}
+		}
+	}
+	return out
+}
+
 func c05Sends(c *core.Ctx, ls *core.LockSets, fns []*ssa.Function, closers []closeSite) {
 	for _, s := range sendSites(fns) {
 		var typ, field string
-		for _, o := range core.Origins(s.ch) {
+		unresolved := ""
+		for _, o := range chanOrigins(s.ch, 0) {
 			if base, f, ok := core.FieldOf(o); ok {
 				typ, field = core.NamedOf(base.Type()), f
+				continue
+			}
+			switch o.(type) {
+			case *ssa.Parameter, *ssa.MakeChan, *ssa.Const, *ssa.FreeVar:
+				// parameter: the caller's site is checked; local channel: closed by its maker after use
+			default:
+				unresolved = fmt.Sprintf("%T", o)
 			}
 		}
 		if field == "" {
-			continue // parameter or local channel: the caller's site is checked / closed by its maker after use
+			if unresolved != "" {
+				c.Undecided(fmt.Sprintf("%s:send(?)", core.FuncName(s.fn)), s.instr.Pos(), "cannot tell which channel this send uses (origin %s): it may be a closable stream channel", unresolved)
+			}
+			continue
 		}
 		var cl *closeSite
 		for i := range closers {
@@ -1184,4 +1232,213 @@ func uniq(s []string) []string {
 		}
 	}
 	return out
+}
+
+// c05WaitGroups implements R8.
+func c05WaitGroups(c *core.Ctx, p *core.Prog, fns []*ssa.Function) {
+	type site struct {
+		fn   *ssa.Function
+		call *ssa.Call
+	}
+	type wg struct{ waits, dones, adds []site }
+	groups := map[string]*wg{}
+	var order []string
+	for _, fn := range fns {
+		core.Instrs(fn, func(in ssa.Instruction) {
+			call, ok := in.(*ssa.Call)
+			if !ok {
+				return
+			}
+			ci := core.InfoOf(&call.Call)
+			kind := ""
+			switch {
+			case ci.Is("sync.WaitGroup.Wait"):
+				kind = "wait"
+			case ci.Is("sync.WaitGroup.Done"):
+				kind = "done"
+			case ci.Is("sync.WaitGroup.Add"):
+				kind = "add"
+			default:
+				return
+			}
+			if len(call.Call.Args) == 0 {
+				return
+			}
+			k := ""
+			for _, o := range core.Origins(call.Call.Args[0]) {
+				if base, f, ok := core.FieldOf(o); ok {
+					k = core.NamedOf(base.Type()) + "." + f
+				}
+			}
+			if k == "" {
+				k = "local:" + core.FuncName(rootOf(fn)) + ":" + core.ValName(call.Call.Args[0])
+			}
+			g := groups[k]
+			if g == nil {
+				g = &wg{}
+				groups[k] = g
+				order = append(order, k)
+			}
+			s := site{fn, call}
+			switch kind {
+			case "wait":
+				g.waits = append(g.waits, s)
+			case "done":
+				g.dones = append(g.dones, s)
+			case "add":
+				g.adds = append(g.adds, s)
+			}
+		})
+	}
+	sort.Strings(order)
+	for _, k := range order {
+		g := groups[k]
+		if len(g.waits) == 0 {
+			continue
+		}
+		key := k + ":released-exactly-once"
+		pos := g.waits[0].call.Pos()
+		if len(g.dones) == 0 {
+			c.Fail(key, pos, "WaitGroup %s is waited on but no library code calls Done on it: the wait never returns", k)
+			continue
+		}
+		// the releasing function: root of the functions that call Done
+		var rel *ssa.Function
+		doneFns := map[*ssa.Function]bool{}
+		multi := false
+		for _, d := range g.dones {
+			doneFns[d.fn] = true
+			r := rootOf(d.fn)
+			if rel != nil && rel != r {
+				multi = true
+			}
+			rel = r
+		}
+		if multi {
+			c.Undecided(key, pos, "Done on %s is called from several top-level functions: cannot pair them with one Add", k)
+			continue
+		}
+		isDone := func(in ssa.Instruction) bool {
+			call, ok := in.(*ssa.Call)
+			if !ok {
+				return false
+			}
+			for _, d := range g.dones {
+				if d.call == call {
+					return true
+				}
+			}
+			for _, o := range core.Origins(call.Call.Value) {
+				if mc, ok := o.(*ssa.MakeClosure); ok {
+					if f, _ := mc.Fn.(*ssa.Function); f != nil && doneFns[f] {
+						return true
+					}
+				}
+			}
+			return false
+		}
+		bad := ""
+		for f := range doneFns {
+			if f == rel {
+				continue
+			}
+			if f.Parent() != rel {
+				bad = fmt.Sprintf("Done is called in %s, which is not a direct closure of %s", core.FuncName(f), core.FuncName(rel))
+				continue
+			}
+			// deferred use of the closure would also be fine, but is not what the repo does: require plain calls
+			for _, mc := range core.ClosureSites(f) {
+				for _, r := range core.Refs(mc) {
+					switch r.(type) {
+					case *ssa.Defer, *ssa.Go:
+						bad = fmt.Sprintf("closure %s that calls Done is deferred or started as a goroutine: its execution count is not decided here", core.FuncName(f))
+					}
+				}
+			}
+			mn, mx, ok := core.CountRange(core.Entry(f), isDone, nil)
+			if !ok || mn != 1 || mx != 1 {
+				bad = fmt.Sprintf("closure %s calls Done between %d and %d times, want exactly once", core.FuncName(f), mn, mx)
+			}
+		}
+		mn, mx, ok := core.CountRange(core.Entry(rel), isDone, nil)
+		if bad == "" && (!ok || mn != 1 || mx != 1) {
+			mxs := fmt.Sprint(mx)
+			if mx >= core.Inf {
+				mxs = "unbounded"
+			}
+			bad = fmt.Sprintf("%s releases the WaitGroup between %d and %s times on its paths, want exactly once: with 0 the waiting operation (Header) never returns, even after the call has completed; with 2 the counter goes negative and panics", core.FuncName(rel), mn, mxs)
+		}
+		// Add: constant 1, outside loops, and each caller of the adding function starts rel as a goroutine on all paths
+		if bad == "" && len(g.adds) != 1 {
+			bad = fmt.Sprintf("%d Add sites for %s, want exactly one", len(g.adds), k)
+		}
+		if bad == "" {
+			a := g.adds[0]
+			n, isC := core.ConstInt(a.call.Call.Args[len(a.call.Call.Args)-1])
+			if !isC || n != 1 {
+				bad = "Add with a delta other than the constant 1"
+			} else if core.LoopOf(a.fn)[a.call.Block()] >= 0 {
+				bad = "Add inside a loop"
+			}
+			startsRel := func(in ssa.Instruction) bool {
+				g, ok := in.(*ssa.Go)
+				return ok && core.InfoOf(&g.Call).Static == rel
+			}
+			callers := 0
+			selfStarts := false
+			core.Instrs(a.fn, func(in ssa.Instruction) {
+				if startsRel(in) {
+					selfStarts = true
+				}
+			})
+			if bad == "" && selfStarts {
+				// Add and go in the same function: after the Add every path to a return starts the releasing goroutine
+				callers = 1
+				for _, r := range core.Returns(a.fn) {
+					if core.Reachable(core.After(a.call), r) && !core.MustPass(core.After(a.call), r, startsRel) {
+						bad = fmt.Sprintf("%s can return after Add(1) without starting %s: nothing would ever release %s", core.FuncName(a.fn), core.FuncName(rel), k)
+					}
+				}
+			} else if bad == "" {
+				if mn, mx, ok := core.CountRange(core.Entry(a.fn), func(in ssa.Instruction) bool { return in == ssa.Instruction(a.call) }, nil); !ok || mn != 1 || mx != 1 {
+					bad = fmt.Sprintf("%s does not execute Add exactly once on every path", core.FuncName(a.fn))
+				}
+			}
+			for _, caller := range p.LibFuncs("") {
+				if selfStarts {
+					break
+				}
+				core.Instrs(caller, func(in ssa.Instruction) {
+					cc := core.CallOf(in)
+					if cc == nil || core.InfoOf(cc).Static != a.fn {
+						return
+					}
+					if _, isGo := in.(*ssa.Go); isGo {
+						return
+					}
+					callers++
+					for _, r := range core.Returns(caller) {
+						if core.Reachable(core.After(in), r) && !core.MustPass(core.After(in), r, startsRel) {
+							bad = fmt.Sprintf("%s obtains a stream from %s but can return without starting %s: nothing would ever release %s", core.FuncName(caller), core.FuncName(a.fn), core.FuncName(rel), k)
+						}
+					}
+				})
+			}
+			if bad == "" && callers == 0 && a.fn != rel {
+				bad = fmt.Sprintf("no call site of %s found", core.FuncName(a.fn))
+			}
+		}
+		if bad != "" {
+			c.Fail(key, pos, "%s", bad)
+		} else {
+			c.Ok(key, pos, "Add(1) once in %s; every caller starts %s; Done exactly once on each of its paths (%d Done site(s))", core.FuncName(g.adds[0].fn), core.FuncName(rel), len(g.dones))
+		}
+	}
+}
+
+func rootOf(fn *ssa.Function) *ssa.Function {
+	for fn.Parent() != nil {
+		fn = fn.Parent()
+	}
+	return fn
 }
